@@ -3,6 +3,7 @@
 //   for EVERY offset A in [0, L) the least solution of the offset equation by linear scan;
 //   the result is the maximum; None (= Err) iff one of the scans finds nothing at or below the limit.
 // Parameters: blocking b, remaining cost after the run-to-completion threshold rem.
+use vstd::arithmetic::mul::*;
 verus! {
 
 pub open spec fn ded() -> spec_fn(int) -> int { |x: int| x }
@@ -116,6 +117,48 @@ pub proof fn lemma_af_ge_a(tua: spec_fn(int) -> int, hp: spec_fn(int) -> int, b:
     }
 }
 
+
+// ---- the four FP analyses as instances of the evaluator (C06 postconditions; C17/C19 lemmas speak about these)
+pub open spec fn na_fn<AB: ArrivalBound + ?Sized>(ab: &AB) -> spec_fn(int) -> int { |x: int| ab.na(x) }
+/// demand of a task with scalar WCET c: cost c for each of the na(x) jobs
+pub open spec fn cn_fn(c: int, na: spec_fn(int) -> int) -> spec_fn(int) -> int { |x: int| c * na(x) }
+pub open spec fn tua_fn<AB: ArrivalBound + ?Sized>(c: int, ab: &AB) -> spec_fn(int) -> int { cn_fn(c, na_fn(ab)) }
+/// fully preemptive: no blocking, no remaining cost
+pub open spec fn fp_spec(tua: spec_fn(int) -> int, hp: spec_fn(int) -> int, limit: int) -> Option<int> { fpx_spec(tua, hp, 0, 0, limit) }
+/// floating non-preemptive regions: blocking b, run-to-completion threshold = WCET
+pub open spec fn fl_spec(tua: spec_fn(int) -> int, hp: spec_fn(int) -> int, b: int, limit: int) -> Option<int> { fpx_spec(tua, hp, b, 0, limit) }
+/// fully non-preemptive: run-to-completion threshold eps, remaining cost c - 1
+pub open spec fn np_spec(c: int, na: spec_fn(int) -> int, hp: spec_fn(int) -> int, b: int, limit: int) -> Option<int> { fpx_spec(cn_fn(c, na), hp, b, c - 1, limit) }
+/// limited preemptive: rtct = c - (last - eps), remaining cost last - 1
+pub open spec fn lp_spec(c: int, last: int, na: spec_fn(int) -> int, hp: spec_fn(int) -> int, b: int, limit: int) -> Option<int> { fpx_spec(cn_fn(c, na), hp, b, last - 1, limit) }
+
+pub proof fn lemma_tua_fn<AB: ArrivalBound + ?Sized>(c: int, ab: &AB)
+    requires c >= 1, ab.wf(), ab.na(1) >= 1
+    ensures rbf_like(tua_fn(c, ab)), tua_fn(c, ab)(1) >= 1,
+        // a step of the RBF adds at least one job of cost C
+        forall |a: int| a >= 0 && #[trigger] is_step(tua_fn(c, ab), a) ==> tua_fn(c, ab)(a + 1) >= tua_fn(c, ab)(a) + c,
+        forall |a: int| a >= 0 ==> #[trigger] tua_fn(c, ab)(a + 1) >= c,
+{
+    ab.na_props();
+    assert(c * 0 == 0) by { lemma_mul_basics(c); }
+    assert forall |a: int, b: int| 0 <= a <= b implies 0 <= #[trigger] tua_fn(c, ab)(a) <= #[trigger] tua_fn(c, ab)(b) by {
+        lemma_mul_nonnegative(c, ab.na(a));
+        lemma_mul_inequality(ab.na(a), ab.na(b), c); lemma_mul_is_commutative(c, ab.na(a)); lemma_mul_is_commutative(c, ab.na(b));
+    }
+    assert(c * ab.na(1) >= 1) by { lemma_mul_inequality(1, ab.na(1), c); lemma_mul_is_commutative(c, ab.na(1)); }
+    assert forall |a: int| a >= 0 && #[trigger] is_step(tua_fn(c, ab), a) implies tua_fn(c, ab)(a + 1) >= tua_fn(c, ab)(a) + c by {
+        let n0 = ab.na(a); let n1 = ab.na(a + 1);
+        assert(n0 <= n1);
+        assert(n1 >= n0 + 1) by { if n1 <= n0 { assert(n1 == n0); } }
+        assert(c * n1 >= c * n0 + c) by { lemma_mul_inequality(n0 + 1, n1, c); lemma_mul_is_commutative(c, n1); lemma_mul_is_distributive_add(c, n0, 1); lemma_mul_is_commutative(c, n0 + 1); }
+    }
+    assert forall |a: int| a >= 0 implies #[trigger] tua_fn(c, ab)(a + 1) >= c by {
+        assert(ab.na(1) <= ab.na(a + 1));
+        lemma_mul_inequality(1, ab.na(a + 1), c); lemma_mul_is_commutative(c, ab.na(a + 1));
+    }
+}
+
+
 // ---- glue between exec closures and the evaluator
 pub open spec fn rta_is<F: Fn(Offset) -> SearchResult>(f: &F, g: spec_fn(int) -> Option<int>, max: int) -> bool {
     forall |a: Offset, r: SearchResult| a.v() < max && #[trigger] f.ensures((a,), r) ==> res_view(r) == g(a.v())
@@ -151,35 +194,69 @@ pub proof fn lemma_exh_some_ge0(tua: spec_fn(int) -> int, hp: spec_fn(int) -> in
     ensures exh(tua, hp, b, rem, limit, a).is_some() ==> exh(tua, hp, b, rem, limit, a).unwrap() >= 0
     decreases a
 { if a > 0 { lemma_exh_some_ge0(tua, hp, b, rem, limit, a - 1); } }
+/// "system 2 is at least as hard as system 1": pointwise more own demand (also after removing the remaining cost),
+/// more interference, more blocking, more remaining cost
+pub open spec fn harder(tua1: spec_fn(int) -> int, hp1: spec_fn(int) -> int, b1: int, rem1: int,
+                        tua2: spec_fn(int) -> int, hp2: spec_fn(int) -> int, b2: int, rem2: int) -> bool {
+    &&& b1 <= b2 && rem1 <= rem2
+    &&& forall |x: int| x >= 1 ==> #[trigger] hp1(x) <= hp2(x)
+    &&& forall |x: int| x >= 1 ==> #[trigger] tua1(x) <= tua2(x)
+    &&& forall |x: int| x >= 1 ==> #[trigger] tua1(x) - rem1 <= tua2(x) - rem2
+}
 /// the exhaustive maximum is monotone in the busy-window length and in every per-offset bound
-/// (this is where the UN-pruned form is needed)
-pub proof fn lemma_exh_mono(tua: spec_fn(int) -> int, hp1: spec_fn(int) -> int, hp2: spec_fn(int) -> int, b1: int, b2: int, rem: int, limit: int, a1: int, a2: int)
-    requires 0 <= a1 <= a2, b1 <= b2, forall |x: int| x >= 1 ==> #[trigger] hp1(x) <= hp2(x)
-    ensures opt_le(exh(tua, hp1, b1, rem, limit, a1), exh(tua, hp2, b2, rem, limit, a2))
+/// (this is where the UN-pruned form is needed: a maximum over a pruned set need not be monotone)
+pub proof fn lemma_exh_mono(tua1: spec_fn(int) -> int, hp1: spec_fn(int) -> int, b1: int, rem1: int,
+                            tua2: spec_fn(int) -> int, hp2: spec_fn(int) -> int, b2: int, rem2: int, limit: int, a1: int, a2: int)
+    requires 0 <= a1 <= a2, harder(tua1, hp1, b1, rem1, tua2, hp2, b2, rem2)
+    ensures opt_le(exh(tua1, hp1, b1, rem1, limit, a1), exh(tua2, hp2, b2, rem2, limit, a2))
     decreases a2
 {
     if a2 > 0 {
-        lemma_exh_some_ge0(tua, hp2, b2, rem, limit, a2 - 1);
+        lemma_exh_some_ge0(tua2, hp2, b2, rem2, limit, a2 - 1);
         if a1 == a2 {
-            lemma_exh_mono(tua, hp1, hp2, b1, b2, rem, limit, a1 - 1, a2 - 1);
-            lemma_scan_mono(ded(), ded(), 0, w_off(tua, hp1, b1, rem, a1 - 1), w_off(tua, hp2, b2, rem, a2 - 1), limit);
+            lemma_exh_mono(tua1, hp1, b1, rem1, tua2, hp2, b2, rem2, limit, a1 - 1, a2 - 1);
+            assert forall |x: int| x >= 1 implies #[trigger] w_off(tua1, hp1, b1, rem1, a1 - 1)(x) <= w_off(tua2, hp2, b2, rem2, a2 - 1)(x) by {
+                assert(tua1(a1 - 1 + 1) - rem1 <= tua2(a1 - 1 + 1) - rem2);
+                assert(hp1(x) <= hp2(x));
+            }
+            lemma_scan_mono(ded(), ded(), 0, w_off(tua1, hp1, b1, rem1, a1 - 1), w_off(tua2, hp2, b2, rem2, a2 - 1), limit);
         } else {
-            lemma_exh_mono(tua, hp1, hp2, b1, b2, rem, limit, a1, a2 - 1);
+            lemma_exh_mono(tua1, hp1, b1, rem1, tua2, hp2, b2, rem2, limit, a1, a2 - 1);
         }
     }
 }
-/// C17: more interference (added task, larger WCET, more jitter, shorter period of an interfering task) or a larger
-/// blocking bound never decreases an FP-family bound and never turns Err into Ok
-pub proof fn lemma_fpx_mono(tua: spec_fn(int) -> int, hp1: spec_fn(int) -> int, hp2: spec_fn(int) -> int, b1: int, b2: int, rem: int, limit: int)
-    requires b1 <= b2, forall |x: int| x >= 1 ==> #[trigger] hp1(x) <= hp2(x)
-    ensures opt_le(fpx_spec(tua, hp1, b1, rem, limit), fpx_spec(tua, hp2, b2, rem, limit))
+/// C17: making the system harder (larger WCET, more jitter, shorter period, added interfering task, larger blocking
+/// bound or non-preemptive segment) never decreases an FP-family bound and never turns Err into Ok
+pub proof fn lemma_fpx_mono(tua1: spec_fn(int) -> int, hp1: spec_fn(int) -> int, b1: int, rem1: int,
+                            tua2: spec_fn(int) -> int, hp2: spec_fn(int) -> int, b2: int, rem2: int, limit: int)
+    requires harder(tua1, hp1, b1, rem1, tua2, hp2, b2, rem2)
+    ensures opt_le(fpx_spec(tua1, hp1, b1, rem1, limit), fpx_spec(tua2, hp2, b2, rem2, limit))
 {
-    lemma_scan_mono(ded(), ded(), 0, w_bw(tua, hp1, b1), w_bw(tua, hp2, b2), limit);
-    lemma_scan(ded(), 0, w_bw(tua, hp1, b1), 0, limit); lemma_scan(ded(), 0, w_bw(tua, hp2, b2), 0, limit);
-    if let Some(l2) = dscan(w_bw(tua, hp2, b2), limit) {
-        let l1 = dscan(w_bw(tua, hp1, b1), limit).unwrap();
-        lemma_exh_mono(tua, hp1, hp2, b1, b2, rem, limit, l1, l2);
+    assert forall |x: int| x >= 1 implies #[trigger] w_bw(tua1, hp1, b1)(x) <= w_bw(tua2, hp2, b2)(x) by { assert(hp1(x) <= hp2(x)); assert(tua1(x) <= tua2(x)); }
+    lemma_scan_mono(ded(), ded(), 0, w_bw(tua1, hp1, b1), w_bw(tua2, hp2, b2), limit);
+    lemma_scan(ded(), 0, w_bw(tua1, hp1, b1), 0, limit); lemma_scan(ded(), 0, w_bw(tua2, hp2, b2), 0, limit);
+    if let Some(l2) = dscan(w_bw(tua2, hp2, b2), limit) {
+        let l1 = dscan(w_bw(tua1, hp1, b1), limit).unwrap();
+        lemma_exh_mono(tua1, hp1, b1, rem1, tua2, hp2, b2, rem2, limit, l1, l2);
     }
+}
+/// C17 / C08: increasing the divergence limit never changes an Ok result
+pub proof fn lemma_exh_limit(tua: spec_fn(int) -> int, hp: spec_fn(int) -> int, b: int, rem: int, limit: int, limit2: int, a: int)
+    requires limit <= limit2, exh(tua, hp, b, rem, limit, a).is_some()
+    ensures exh(tua, hp, b, rem, limit2, a) == exh(tua, hp, b, rem, limit, a)
+    decreases a
+{
+    if a > 0 {
+        lemma_exh_limit(tua, hp, b, rem, limit, limit2, a - 1);
+        lemma_scan_limit_independent(ded(), 0, w_off(tua, hp, b, rem, a - 1), limit, limit2);
+    }
+}
+pub proof fn lemma_fpx_limit(tua: spec_fn(int) -> int, hp: spec_fn(int) -> int, b: int, rem: int, limit: int, limit2: int)
+    requires limit <= limit2, fpx_spec(tua, hp, b, rem, limit).is_some()
+    ensures fpx_spec(tua, hp, b, rem, limit2) == fpx_spec(tua, hp, b, rem, limit)
+{
+    lemma_scan_limit_independent(ded(), 0, w_bw(tua, hp, b), limit, limit2);
+    lemma_exh_limit(tua, hp, b, rem, limit, limit2, dscan(w_bw(tua, hp, b), limit).unwrap());
 }
 
 } // verus!
